@@ -42,3 +42,38 @@ Print Assumptions C12_secret_guarded_window.
 Print Assumptions C12_secret_guarded.
 Print Assumptions C12_secret_only_at_prompt.
 Print Assumptions C12_window_refuted.
+
+(* ---- "the result contains the whole dialogue" (InteractiveLemmas) ---- *)
+From Scrapli Require Import InteractiveLemmas.
+
+(* a successful interactive send returns processOut of EVERYTHING its read-untils returned, in order
+   (echo reads included; the strip-prompt option does not apply, as in Go); a failed one returns
+   the error of the read-until that was handed it and no partial dialogue *)
+Theorem C12_result_whole : forall cfg evs o t out,
+  ctrace cfg (send_interactive cfg evs o) t out ->
+  match out with
+  | inl r => existsb is_err t = false /\ r = process_out cfg (concat (read_bufs t)) false
+  | inr e => exists t0 c, t = t0 ++ [OErr c e] /\ existsb is_err t0 = false
+  end.
+Proof. exact interactive_outcome. Qed.
+
+(* a plain send: exactly the command, then the return, are written; the result is processOut of the
+   bytes of the prompt read (the echo read's bytes are consumed and discarded) *)
+Theorem C12_send_input_result : forall cfg cmd o t r,
+  ctrace cfg (send_input cfg cmd o) t (inl r) ->
+  writes_of t = [(cmd, false); (c_ret cfg, false)] /\
+  r = process_out cfg (if o_eager o then [] else last (read_bufs t) []) (o_strip o).
+Proof. exact send_input_result. Qed.
+
+Theorem C12_get_prompt_result : forall cfg t r,
+  ctrace cfg (get_prompt cfg) t (inl r) ->
+  exists rb, t = [OWrite (c_ret cfg) false; ORead CPrompt rb]
+             /\ cond_holds cfg CPrompt rb = true
+             /\ writes_of t = [(c_ret cfg, false)]
+             /\ read_bufs t = [rb]
+             /\ r = match rx_find (c_prompt cfg) rb with Some p => p | None => [] end.
+Proof. exact get_prompt_result. Qed.
+
+Print Assumptions C12_result_whole.
+Print Assumptions C12_send_input_result.
+Print Assumptions C12_get_prompt_result.
